@@ -54,6 +54,10 @@ def write_case(case, d, add_rid=False):
     if add_rid:
         import numpy as np
         df["_rid"] = np.arange(fr["n"], dtype="int64")
+    if case.get("row_labels") and fr.get("index") is None and opts.get("write_index") is False:
+        # a frame whose (unwritten) row labels repeat, e.g. the result of a concat
+        lab = case["row_labels"]
+        df.index = [lab[i % len(lab)] for i in range(len(df))]
     path = _path(d, opts)
     kw = cases.write_kwargs(opts)
     if case.get("partition_on"):
@@ -160,7 +164,7 @@ def pd_RangeIndex():
 
 def col_tag(c):
     k = c["kind"]
-    if k in ("int", "float", "nullable"):
+    if k in ("int", "float", "nullable", "pyobj"):
         return "%s:%s" % (k, c["sub"])
     if k == "text":
         return "text:%s" % c.get("sub", "object")
